@@ -321,7 +321,8 @@ class CHECK(vlib.Check):
                 "SetAutoSortEnabled, Reposition, destruction; HashtableIterator: construction (registered / unregistered when empty), ++, --, "
                 "SetBackwards, assignment, destruction.  Ideal ordered map (L0, HtIdeal.v) with capacity and auto-sort attribute.  Proved: world "
                 "invariant for every operation, iterator safety, refinement L1 = L0 with equal results for every operation and all three classes, "
-                "traversal no-skip / no-duplicate for calm interleavings, sorted order of the auto-sorting classes.  Effect level: SortByEntry "
+                "traversal no-skip / no-duplicate / completeness for every interleaving whose mutations do not reorder the iterator's table, liveness of "
+                "the shown entry and termination under any mutations, sorted order of the auto-sorting classes.  Effect level: SortByEntry "
                 "(stable sort + relink), Clear's entry loop.  Not modelled (corresponded + harness oracle only): bucket chains, _mapTo/_mappedFrom, "
                 "free list, 8/16/32-bit index width, reallocation and the iterator re-pointing in EnsureSize, hash functors, thread-id bookkeeping "
                 "of iterator registration.")
@@ -330,9 +331,11 @@ class CHECK(vlib.Check):
                 "reallocation are not modelled; GetEntry(hash,key) is modelled as the entry of the iteration list holding the key",
                 "sizes and counts below 2^32 (uint32 wrap-around is not modelled); allocation never fails",
                 "single thread (iterator registration is never refused)",
-                "traversal theorems: operations that may relink a surviving entry (MoveTo*, PutAt*, Sort*, Reposition, Put on an existing key of an "
-                "auto-sorting table, CopyFrom without clearing) are admitted only when they leave the world unchanged; the harness oracle checks the "
-                "semantic condition (relative order of surviving entries unchanged) on the implementation"]
+                "traversal theorems (no-dup / no-skip / complete): a relinking operation (MoveTo*, PutAt*, Sort*, Reposition, Put on an existing key "
+                "of an auto-sorting table, CopyFrom without clearing, MoveToTable/CopyToTable) must leave the relative order of the entries of the "
+                "iterator's table unchanged (decidable premise sem_okd); Put-with-position of an existing key on an auto-sorting class counts as "
+                "a reordering operation (it moves the entry twice: C09_traversal_semantic_refuted) unless it changes nothing; the harness oracle "
+                "evaluates the same semantic condition on the implementation"]
     rule = ("operation scripts over 1-3 tables of one class (Hashtable / OrderedKeysHashtable / OrderedValuesHashtable <int,int>, default or "
             "colliding hash functor) and up to 5 HashtableIterators, from random.Random(seed); after EVERY operation the result, every "
             "table's order read through the next links (and cross-checked through the prev links), count, capacity, auto-sort flag, "
